@@ -453,6 +453,9 @@ def configs(tier: str) -> list[dict[str, Any]]:
     out.append({"loader": "matter", "capacity": 2, "auto_reload": True, "nsmode": "none", "names": names[:2]})  # sources with front matter
     out.append({"loader": "dict", "capacity": 2, "auto_reload": True, "nsmode": "none", "names": names[:2], "whos": (1, True, 1.0)})  # equal but different globals
     out.append({"loader": "dict", "capacity": 2, "auto_reload": True, "nsmode": "kwarg", "names": ("n1", "y/n1"), "nss": (None, "x", "x/y")})  # slashes on both sides
+    out.append({"loader": "dict", "capacity": 2, "auto_reload": True, "nsmode": "kwarg", "names": ("n1", "x/n1"), "nss": (None, "x")})  # a bare name that looks like a namespaced key
+    out.append({"loader": "dict", "capacity": 3, "auto_reload": True, "nsmode": "kwarg", "names": ("n1",), "nss": ("x/y", "x%2Fy", "x%252Fy")})  # namespaces that differ only in how a slash is spelled
+    out.append({"loader": "dict", "capacity": 2, "auto_reload": True, "nsmode": "global", "names": ("n1", "%/n1"), "nss": (None, "%", "")})  # the empty namespace and a lone percent sign
     out.append({"loader": "fs2", "capacity": 2, "auto_reload": True, "nsmode": "none", "names": names[:2]})  # two search paths, shadowing
     out.append({"loader": "fs2", "capacity": 1, "auto_reload": False, "nsmode": "none", "names": names[:1]})
     out.append({"loader": "fs2", "capacity": 2, "auto_reload": True, "nsmode": "none", "names": names[:2], "ext": ".liquid"})  # names requested without their suffix
